@@ -736,7 +736,7 @@ def flatten(self, *dims, **kwargs):
 
     # dimension to insert the new axis at
     if insert is None: 
-        insert = ii  # by default, do not reshape
+        insert = min(ii, self.ndim - n)  # by default, do not reshape (the group cannot start beyond ndim - n)
 
     # If dimensions do not follow each other, transpose first
     if dims != self.dims[insert:insert+len(dims)]:
